@@ -187,9 +187,63 @@ def coq_props(ctx, pid=None, extra_targets=()):
     return res
 
 
-def audit():
-    rc, out = sh([os.path.join(ROOT, "tools", "audit.sh")])
-    return rc == 0, out
+_AUDIT_RE = re.compile(r"(^|[^A-Za-z_'])(Admitted|admit|Axiom|Axioms|Parameter|Parameters|Conjecture|Conjectures|Admit Obligations|Unset Guard Checking|Unset Positivity Checking|Unset Universe Checking|bypass_check|Local Unset Guard)([^A-Za-z_']|$)")
+
+
+def coq_cone(vrel):
+    """Transitive set of project files (relative to coq/) that vrel depends on (incl. itself)."""
+    seen, todo = set(), [vrel]
+    while todo:
+        f = todo.pop()
+        if f in seen or not os.path.exists(os.path.join(COQ, f)):
+            continue
+        seen.add(f)
+        text = re.sub(r"\(\*.*?\*\)", "", open(os.path.join(COQ, f), errors="replace").read(), flags=re.S)
+        for m in re.finditer(r"Require\s+(?:Import\s+|Export\s+)?(.*?)\.(?=\s)", text + "\n", flags=re.S):
+            for mod in m.group(1).split():
+                mod = mod.strip()
+                if mod.startswith(NS + "."):
+                    mod = mod[len(NS) + 1:]
+                cand = mod.replace(".", "/") + ".v"
+                if os.path.exists(os.path.join(COQ, cand)):
+                    todo.append(cand)
+    return sorted(seen)
+
+
+def _strip_comments(text):
+    out, depth, i = [], 0, 0
+    while i < len(text):
+        if text.startswith("(*", i):
+            depth += 1; i += 2
+        elif text.startswith("*)", i) and depth > 0:
+            depth -= 1; i += 2
+        else:
+            if depth == 0:
+                out.append(text[i])
+            elif text[i] == "\n":
+                out.append("\n")
+            i += 1
+    return "".join(out)
+
+
+def audit(pid=None):
+    """No Axiom/Parameter/Admitted/admit/disabled kernel checks, and no Variable/Hypothesis outside a Section,
+    in the dependency cone of Props/<pid>.v (whole development when pid is None)."""
+    files = coq_cone("Props/%s.v" % pid) if pid else _v_files()
+    bad = []
+    for f in files:
+        text = _strip_comments(open(os.path.join(COQ, f), errors="replace").read())
+        depth = 0
+        for i, line in enumerate(text.splitlines(), 1):
+            if _AUDIT_RE.search(line):
+                bad.append("%s:%d: %s" % (f, i, line.strip()[:120]))
+            if re.match(r"^\s*(Section|Module)\b", line) and not re.match(r"^\s*Module\s+(Import|Export)\b", line):
+                depth += 1
+            elif re.match(r"^\s*End\b", line) and depth > 0:
+                depth -= 1
+            elif re.match(r"^\s*(Variable|Variables|Hypothesis|Hypotheses|Context)\b", line) and depth == 0:
+                bad.append("%s:%d: %s (outside a Section)" % (f, i, line.strip()[:120]))
+    return (not bad), ("audit ok (%d files)" % len(files) if not bad else "AUDIT FAIL\n" + "\n".join(bad[:20]))
 
 
 def coqchk(pid, timeout=3000):
@@ -494,7 +548,7 @@ def standard_check(ctx, spec):
     pid = ctx.pid
     proofs = coq_props(ctx, pid, extra_targets=spec.get("extra_targets", ()))
     broken, failures = [], []
-    aok, aout = audit()
+    aok, aout = audit(pid)
     if not aok:
         proofs["ok"] = False
         proofs["discharged"] = 0
